@@ -119,9 +119,11 @@ func ECDSASigning(seed int64, keys []ecdsakeygen.LocalPartySaveData, t int, msg 
 // ---- ECDSA resharing
 
 type ReshareOpts struct {
-	NoProofs   bool
-	OldN       int // party count of the original key (informational parameter of NewReSharingParameters)
-	NewFirst   bool // queue the Start events of the new committee before the old one
+	NoProofs bool
+	OldN     int  // party count of the original key (informational parameter of NewReSharingParameters)
+	NewFirst bool // queue the Start events of the new committee before the old one
+	// PreOverride replaces the pre-parameters of new member i (a deviating member bringing its own parameters)
+	PreOverride map[int]ecdsakeygen.LocalPreParams
 }
 
 func ECDSAResharing(seed int64, oldKeys []ecdsakeygen.LocalPartySaveData, t int, newIDs []*big.Int, newT int, pre []ecdsakeygen.LocalPreParams, o ReshareOpts) *World {
